@@ -287,7 +287,7 @@ Proof.
   destruct (topo_parts _ _ H) as (_ & H2 & _). exact H2.
 Qed.
 
-Definition Inv (s : st) (m : mon) : Prop :=
+Definition Inv0 (s : st) (m : mon) : Prop :=
   m_ok m = true /\ m_pend m = pending s /\ m_stopped m = stopped s /\ NoDup (pending s) /\
   match wk s with
   | WIdle => m_run m = None
@@ -299,8 +299,8 @@ Definition Inv (s : st) (m : mon) : Prop :=
                                   m_conf m = true /\ good (snap s) (snt0 ++ [tx]) todo
   end.
 
-Lemma Inv_init : Inv init m_init.
-Proof. unfold Inv; simpl. repeat split. constructor. Qed.
+Lemma Inv0_init : Inv0 init m_init.
+Proof. unfold Inv0; simpl. repeat split. constructor. Qed.
 
 Lemma ret_eqb_err : forall o, accepted o = false -> ret_eqb (RErr o) (RErr o) = true.
 Proof. intros [|[]|]; simpl; intros H; try reflexivity; discriminate. Qed.
@@ -317,95 +317,176 @@ Proof. intros. rewrite app_length. simpl. apply Nat.eqb_neq. lia. Qed.
 Ltac fin := repeat split; try assumption; try reflexivity;
   try (match goal with E : stopped _ = _ |- _ => rewrite E; (assumption || reflexivity) end).
 
-Lemma Inv_step' : forall s m e s' o, Inv s m -> step depsort s e = (s', o) ->
-  Inv s' (m_step deps m (e, o)).
+Lemma Inv0_step : forall s m e s' o, Inv0 s m -> step0 depsort s e = (s', o) ->
+  Inv0 s' (m_step deps m (e, o)).
 Proof.
   intros s m e s' o (Hok & Hp & Hs & Hnd & Hw) Hstep.
-  destruct e as [tx oc | tx | | | | oc | | | ]; simpl in Hstep.
+  destruct e as [tx oc | tx | | | | oc | | | | tx | oc]; simpl in Hstep.
   - (* EBroadcast *)
     destruct (stopped s) eqn:Est.
     + inversion Hstep; subst; clear Hstep. simpl. rewrite Hs. simpl. rewrite Z.eqb_refl. simpl.
-      unfold Inv, flag; simpl. rewrite Hok. fin.
+      unfold Inv0, flag; simpl. rewrite Hok. fin.
     + destruct (accepted oc) eqn:Ea; inversion Hstep; subst; clear Hstep; simpl.
       * rewrite Hs, Ea. simpl. rewrite Z.eqb_refl. simpl.
-        unfold Inv, with_pend, flag; simpl. rewrite Hok, Hp. fin.
+        unfold Inv0, with_pend, flag; simpl. rewrite Hok, Hp. fin.
         apply NoDup_add. exact Hnd.
       * rewrite Hs, Ea. simpl. rewrite Z.eqb_refl. pose proof (ret_eqb_err _ Ea) as Hre. simpl in Hre. rewrite Hre. simpl.
-        unfold Inv, flag; simpl. rewrite Hok. fin.
+        unfold Inv0, flag; simpl. rewrite Hok. fin.
   - (* EConf *)
     destruct (stopped s) eqn:Est; inversion Hstep; subst; clear Hstep; simpl.
-    + unfold Inv, flag; simpl. rewrite Hok, Hs. fin.
-    + rewrite Z.eqb_refl. unfold Inv, with_pend, flag; simpl. rewrite Hok, Hs, Hp. simpl.
+    + unfold Inv0, flag; simpl. rewrite Hok, Hs. fin.
+    + rewrite Z.eqb_refl. unfold Inv0, with_pend, flag; simpl. rewrite Hok, Hs, Hp. simpl.
       fin. apply NoDup_remove. exact Hnd.
   - (* EBlock *)
     unfold trigger in Hstep. destruct (stopped s) eqn:Est.
-    + inversion Hstep; subst; clear Hstep. simpl. unfold Inv. fin.
+    + inversion Hstep; subst; clear Hstep. simpl. unfold Inv0. fin.
     + destruct (wk s) eqn:Ew; inversion Hstep; subst; clear Hstep; simpl.
-      * rewrite Hw. unfold Inv; simpl. rewrite Hok, Hs, Hp. simpl. fin.
+      * rewrite Hw. unfold Inv0; simpl. rewrite Hok, Hs, Hp. simpl. fin.
         exists []. repeat split; try reflexivity; apply (good_start (nsort s) (pending s) Hnd).
-      * destruct Hw as (snt & Hr & Hw). rewrite Hr. unfold Inv, flag; simpl.
+      * destruct Hw as (snt & Hr & Hw). rewrite Hr. unfold Inv0, flag; simpl.
         rewrite Hok, Hs, Ew. simpl. fin. exists snt. split; assumption.
-      * destruct Hw as (snt & Hr & Hw). rewrite Hr. unfold Inv, flag; simpl.
+      * destruct Hw as (snt & Hr & Hw). rewrite Hr. unfold Inv0, flag; simpl.
         rewrite Hok, Hs, Ew. simpl. fin. exists snt. split; assumption.
-      * destruct Hw as (snt & Hr & Hw). rewrite Hr. unfold Inv, flag; simpl.
+      * destruct Hw as (snt & Hr & Hw). rewrite Hr. unfold Inv0, flag; simpl.
         rewrite Hok, Hs, Ew. simpl. fin. exists snt. split; assumption.
   - (* ETick *)
     unfold trigger in Hstep. destruct (stopped s) eqn:Est.
-    + inversion Hstep; subst; clear Hstep. simpl. unfold Inv. fin.
+    + inversion Hstep; subst; clear Hstep. simpl. unfold Inv0. fin.
     + destruct (wk s) eqn:Ew; inversion Hstep; subst; clear Hstep; simpl.
-      * rewrite Hw. unfold Inv; simpl. rewrite Hok, Hs, Hp. simpl. fin.
+      * rewrite Hw. unfold Inv0; simpl. rewrite Hok, Hs, Hp. simpl. fin.
         exists []. repeat split; try reflexivity; apply (good_start (nsort s) (pending s) Hnd).
-      * destruct Hw as (snt & Hr & Hw). rewrite Hr. unfold Inv, flag; simpl.
+      * destruct Hw as (snt & Hr & Hw). rewrite Hr. unfold Inv0, flag; simpl.
         rewrite Hok, Hs, Ew. simpl. fin. exists snt. split; assumption.
-      * destruct Hw as (snt & Hr & Hw). rewrite Hr. unfold Inv, flag; simpl.
+      * destruct Hw as (snt & Hr & Hw). rewrite Hr. unfold Inv0, flag; simpl.
         rewrite Hok, Hs, Ew. simpl. fin. exists snt. split; assumption.
-      * destruct Hw as (snt & Hr & Hw). rewrite Hr. unfold Inv, flag; simpl.
+      * destruct Hw as (snt & Hr & Hw). rewrite Hr. unfold Inv0, flag; simpl.
         rewrite Hok, Hs, Ew. simpl. fin. exists snt. split; assumption.
   - (* EWCall *)
     destruct (wk s) as [|[|tx rest]|tx rest|tx rest] eqn:Ew;
-      try (inversion Hstep; subst; clear Hstep; simpl; unfold Inv; rewrite Ew; fin).
+      try (inversion Hstep; subst; clear Hstep; simpl; unfold Inv0; rewrite Ew; fin).
     destruct Hw as (snt & Hr & Hi & Hc & Hg).
     destruct (stopped s) eqn:Est; inversion Hstep; subst; clear Hstep; simpl.
-    + rewrite Hr. unfold Inv; simpl. rewrite Hok, Hi, Hs. simpl. fin.
+    + rewrite Hr. unfold Inv0; simpl. rewrite Hok, Hi, Hs. simpl. fin.
     + rewrite Hr. destruct (good_next _ _ _ _ Hg) as (Hg' & Hm1 & Hm2 & Hm3).
-      unfold Inv; simpl. rewrite Hok, Hs, Hi, Hc, Hm1, Hm2, Hm3. simpl.
+      unfold Inv0; simpl. rewrite Hok, Hs, Hi, Hc, Hm1, Hm2, Hm3. simpl.
       fin. exists snt. repeat split; try reflexivity; apply Hg'.
   - (* EWRet *)
     destruct (wk s) as [|todo|tx rest|tx rest] eqn:Ew;
-      try (inversion Hstep; subst; clear Hstep; simpl; unfold Inv; rewrite Ew; fin).
+      try (inversion Hstep; subst; clear Hstep; simpl; unfold Inv0; rewrite Ew; fin).
     destruct Hw as (snt0 & Hr & Hi & Hg).
     destruct (is_confirmed oc) eqn:Ec; inversion Hstep; subst; clear Hstep; simpl;
-      unfold Inv; simpl; rewrite Hok, Hi; simpl; fin.
+      unfold Inv0; simpl; rewrite Hok, Hi; simpl; fin.
     + exists snt0. repeat split; try assumption; try apply Hg.
     + exists (snt0 ++ [tx]). repeat split; try assumption; try apply Hg.
   - (* EWHandoff *)
     destruct (wk s) as [|todo|tx rest|tx rest] eqn:Ew;
-      try (inversion Hstep; subst; clear Hstep; simpl; unfold Inv; rewrite Ew; fin).
+      try (inversion Hstep; subst; clear Hstep; simpl; unfold Inv0; rewrite Ew; fin).
     destruct Hw as (snt0 & Hr & Hi & Hc & Hg).
     destruct (stopped s) eqn:Est; inversion Hstep; subst; clear Hstep; simpl.
-    + rewrite Hr. unfold Inv; simpl. rewrite Hok, Hi, Hs. simpl. fin.
-    + unfold Inv; simpl. rewrite Hok, Hs, Hc, Hr, last_snoc, Z.eqb_refl, snoc_length_nz, Hp. simpl.
+    + rewrite Hr. unfold Inv0; simpl. rewrite Hok, Hi, Hs. simpl. fin.
+    + unfold Inv0; simpl. rewrite Hok, Hs, Hc, Hr, last_snoc, Z.eqb_refl, snoc_length_nz, Hp. simpl.
       fin.
       * apply NoDup_remove. exact Hnd.
       * exists (snt0 ++ [tx]). repeat split; try assumption; try apply Hg.
   - (* EWDone *)
     destruct (wk s) as [|[|tx rest]|tx rest|tx rest] eqn:Ew;
-      try (inversion Hstep; subst; clear Hstep; simpl; unfold Inv; rewrite Ew; fin).
+      try (inversion Hstep; subst; clear Hstep; simpl; unfold Inv0; rewrite Ew; fin).
     + destruct Hw as (snt & Hr & Hi & Hc & Hg). inversion Hstep; subst; clear Hstep; simpl.
       rewrite Hr. pose proof (good_done _ _ Hg) as Hl.
-      unfold Inv; simpl. rewrite Hok, Hi, Hc, Hl, Nat.eqb_refl, orb_true_r. simpl. fin.
+      unfold Inv0; simpl. rewrite Hok, Hi, Hc, Hl, Nat.eqb_refl, orb_true_r. simpl. fin.
     + destruct Hw as (snt & Hr & Hi & Hc & Hg).
       destruct (stopped s) eqn:Est; inversion Hstep; subst; clear Hstep; simpl.
-      * rewrite Hr. unfold Inv; simpl. rewrite Hok, Hi, Hs. simpl. fin.
-      * unfold Inv. rewrite Ew. fin. exists snt. auto.
+      * rewrite Hr. unfold Inv0; simpl. rewrite Hok, Hi, Hs. simpl. fin.
+      * unfold Inv0. rewrite Ew. fin. exists snt. auto.
     + destruct Hw as (snt0 & Hr & Hi & Hc & Hg).
       destruct (stopped s) eqn:Est; inversion Hstep; subst; clear Hstep; simpl.
-      * rewrite Hr. unfold Inv; simpl. rewrite Hok, Hi, Hs. simpl. fin.
-      * unfold Inv. rewrite Ew. fin. exists snt0. auto.
+      * rewrite Hr. unfold Inv0; simpl. rewrite Hok, Hi, Hs. simpl. fin.
+      * unfold Inv0. rewrite Ew. fin. exists snt0. auto.
   - (* EStop *)
     destruct (stopped s) eqn:Est; inversion Hstep; subst; clear Hstep; simpl.
-    + unfold Inv; simpl. fin.
-    + unfold Inv; simpl. fin.
+    + unfold Inv0; simpl. fin.
+    + unfold Inv0; simpl. fin.
+  - inversion Hstep; subst; clear Hstep. simpl. unfold Inv0. fin.
+  - inversion Hstep; subst; clear Hstep. simpl. unfold Inv0. fin.
+Qed.
+
+(* ---------- the full step (split Broadcast requests) ---------- *)
+
+Lemma step0_busy : forall s e s' o, step0 depsort s e = (s', o) -> hbusy s' = hbusy s.
+Proof.
+  intros s e s' o H. destruct e; simpl in H; unfold trigger in H;
+    repeat match goal with
+           | H : context [if ?c then _ else _] |- _ => destruct c
+           | H : context [match ?w with _ => _ end] |- _ => destruct w
+           end; inversion H; subst; reflexivity.
+Qed.
+
+Lemma m_step_busy0 : forall m s e s' o, step0 depsort s e = (s', o) ->
+  m_busy (m_step deps m (e, o)) = m_busy m.
+Proof.
+  intros m s e s' o H. destruct e; simpl in H; unfold trigger in H;
+    repeat match goal with
+           | H : context [if ?c then _ else _] |- _ => destruct c
+           | H : context [match ?w with _ => _ end] |- _ => destruct w
+           end; inversion H; subst; simpl;
+    repeat match goal with
+           | |- context [match ?x with _ => _ end] => destruct x
+           end; reflexivity.
+Qed.
+
+Definition Inv (s : st) (m : mon) : Prop := Inv0 s m /\ m_busy m = hbusy s.
+
+Lemma Inv_init : Inv init m_init.
+Proof. split; [apply Inv0_init | reflexivity]. Qed.
+
+Lemma Inv_via0 : forall s m e s' o, Inv s m -> step0 depsort s e = (s', o) ->
+  Inv s' (m_step deps m (e, o)).
+Proof.
+  intros s m e s' o [H0 Hb] Hstep. split.
+  - eapply Inv0_step; eauto.
+  - rewrite (m_step_busy0 _ _ _ _ _ Hstep), (step0_busy _ _ _ _ Hstep). exact Hb.
+Qed.
+
+Lemma Inv_step : forall s m e s' o, Inv s m -> step depsort s e = (s', o) ->
+  Inv s' (m_step deps m (e, o)).
+Proof.
+  intros s m e s' o HI Hstep.
+  assert (Hguard : forall e0, e0 = e ->
+     (if handler_event e && negb (stopped s) && match hbusy s with Some _ => true | None => false end
+      then (s, ONone) else step0 depsort s e) = (s', o) -> Inv s' (m_step deps m (e, o))).
+  { intros e0 _ Hg.
+    destruct (handler_event e && negb (stopped s) && match hbusy s with Some _ => true | None => false end).
+    - inversion Hg; subst. destruct e; exact HI.
+    - eapply Inv_via0; eauto. }
+  destruct e as [tx oc | tx | | | | oc | | | | tx | oc]; try (apply (Hguard _ eq_refl); exact Hstep).
+  - (* EStop *)
+    unfold step in Hstep. destruct (hbusy s) as [b|] eqn:Eb; [|eapply Inv_via0; eauto].
+    destruct HI as [(Hok & Hp & Hs & Hnd & Hw) Hb]. rewrite Eb in Hb. simpl in Hstep.
+    destruct (stopped s) eqn:Est; inversion Hstep; subst; clear Hstep; simpl.
+    + split; [|simpl; congruence]. unfold Inv0; simpl. fin.
+    + split; [|simpl; congruence]. unfold Inv0; simpl.
+      rewrite Hok, Hs, Hb, Z.eqb_refl. simpl. fin.
+  - (* EBcStart *)
+    simpl in Hstep. destruct HI as [(Hok & Hp & Hs & Hnd & Hw) Hb].
+    destruct (stopped s) eqn:Est.
+    + inversion Hstep; subst; clear Hstep. simpl. rewrite Z.eqb_refl, Hs. simpl.
+      split; [|simpl; congruence]. unfold Inv0, flag; simpl. rewrite Hok. fin.
+    + destruct (hbusy s) as [b|] eqn:Eb; inversion Hstep; subst; clear Hstep; simpl.
+      * split; [unfold Inv0; fin | simpl; congruence].
+      * split; [|reflexivity]. unfold Inv0; simpl. rewrite Hok, Hs, Hb, Z.eqb_refl. simpl. fin.
+  - (* EBcRet *)
+    simpl in Hstep. destruct HI as [(Hok & Hp & Hs & Hnd & Hw) Hb].
+    destruct (hbusy s) as [b|] eqn:Eb.
+    2:{ inversion Hstep; subst; clear Hstep. simpl. split; [unfold Inv0; fin | simpl; congruence]. }
+    destruct (stopped s) eqn:Est.
+    + inversion Hstep; subst; clear Hstep. simpl. split; [|reflexivity].
+      unfold Inv0; simpl. rewrite Hok, Hs, Hb, Est. simpl. fin.
+    + destruct (accepted oc) eqn:Ea; inversion Hstep; subst; clear Hstep; simpl.
+      * split; [|reflexivity]. unfold Inv0; simpl. rewrite Hok, Hs, Hb, Z.eqb_refl, Ea, Hp, Est. simpl.
+        fin. apply NoDup_add. exact Hnd.
+      * split; [|reflexivity]. pose proof (ret_eqb_err _ Ea) as Hre. simpl in Hre.
+        unfold Inv0; simpl. rewrite Hok, Hs, Hb, Z.eqb_refl, Ea, Est. simpl. rewrite Hre.
+        destruct oc as [|c|]; simpl; fin.
 Qed.
 
 Lemma sim_run : forall evs s m, Inv s m ->
@@ -414,20 +495,20 @@ Lemma sim_run : forall evs s m, Inv s m ->
 Proof.
   induction evs as [|e evs IH]; intros s m H; simpl; [exact H|].
   destruct (step depsort s e) as [s1 o] eqn:E.
-  specialize (IH s1 (m_step deps m (e, o)) (Inv_step' _ _ _ _ _ H E)).
+  specialize (IH s1 (m_step deps m (e, o)) (Inv_step _ _ _ _ _ H E)).
   destruct (run_from depsort s1 evs) as [s2 os]. simpl in *. exact IH.
 Qed.
 
 Lemma model_holds : forall evs, holds deps (trace depsort evs) = true.
 Proof.
   intros evs. unfold holds, m_run_all, trace.
-  destruct (sim_run evs init m_init Inv_init) as (H & _). exact H.
+  destruct (sim_run evs init m_init Inv_init) as ((H & _) & _). exact H.
 Qed.
 
 Lemma pending_nodup : forall evs, NoDup (pending (run depsort evs)).
 Proof.
   intros evs. unfold run.
-  destruct (sim_run evs init m_init Inv_init) as (_ & _ & _ & H & _). exact H.
+  destruct (sim_run evs init m_init Inv_init) as ((_ & _ & _ & H & _) & _). exact H.
 Qed.
 
 (* ---------- the pending set, declaratively ---------- *)
@@ -454,7 +535,7 @@ Proof.
       * rewrite forallb_app, Hc. simpl. rewrite Hx. reflexivity.
 Qed.
 
-Lemma step_pending : forall s e s' o, step depsort s e = (s', o) -> forall tx,
+Lemma step0_pending : forall s e s' o, step0 depsort s e = (s', o) -> forall tx,
   In tx (pending s') <->
   accepts (e, o) tx = true \/ (In tx (pending s) /\ confirms (e, o) tx = false).
 Proof.
@@ -462,7 +543,7 @@ Proof.
   assert (Hsame : forall p, accepts (e, o) tx = false -> confirms (e, o) tx = false ->
             (In tx p <-> accepts (e, o) tx = true \/ (In tx p /\ confirms (e, o) tx = false))).
   { intros p Ha Hc. rewrite Ha, Hc. split; [intros H; right; auto | intros [H|[H _]]; [discriminate | exact H]]. }
-  destruct e as [t oc | t | | | | oc | | | ]; simpl in Hstep; unfold trigger in Hstep.
+  destruct e as [t oc | t | | | | oc | | | | t | oc]; simpl in Hstep; unfold trigger in Hstep.
   - destruct (stopped s); [inversion Hstep; subst; apply Hsame; reflexivity|].
     destruct (accepted oc); inversion Hstep; subst; [|apply Hsame; reflexivity].
     unfold accepts, confirms; simpl. rewrite In_add. rewrite Z.eqb_eq. split.
@@ -488,6 +569,65 @@ Proof.
   - destruct (wk s) as [|[|t rest]|t rest|t rest]; try (inversion Hstep; subst; apply Hsame; reflexivity);
       destruct (stopped s); inversion Hstep; subst; apply Hsame; reflexivity.
   - destruct (stopped s); inversion Hstep; subst; apply Hsame; reflexivity.
+  - inversion Hstep; subst; apply Hsame; reflexivity.
+  - inversion Hstep; subst; apply Hsame; reflexivity.
+Qed.
+
+Lemma step_cases : forall s e s' o, step depsort s e = (s', o) ->
+  (s' = s /\ o = ONone) \/
+  (step0 depsort s e = (s', o)) \/
+  (exists tx, e = EBcStart tx /\
+     ((stopped s = true /\ s' = s /\ o = ORet tx RStopped) \/
+      (stopped s = false /\ hbusy s = None /\ s' = set_busy s (Some tx) /\ o = OBcHeld tx))) \/
+  (exists oc tx, e = EBcRet oc /\ hbusy s = Some tx /\
+     ((stopped s = true /\ s' = set_busy s None /\ o = OAnsH) \/
+      (stopped s = false /\ accepted oc = true /\
+       s' = set_busy (set_pending s (add tx (pending s))) None /\ o = ORet tx RNil) \/
+      (stopped s = false /\ accepted oc = false /\ s' = set_busy s None /\ o = ORet tx (RErr oc)))) \/
+  (exists tx, e = EStop /\ hbusy s = Some tx /\ stopped s = false /\
+     s' = fst (step0 depsort s EStop) /\ o = OStopBc tx).
+Proof.
+  intros s e s' o Hstep.
+  assert (Hguard :
+     (if handler_event e && negb (stopped s) && match hbusy s with Some _ => true | None => false end
+      then (s, ONone) else step0 depsort s e) = (s', o) ->
+     (s' = s /\ o = ONone) \/ (step0 depsort s e = (s', o))).
+  { destruct (handler_event e && negb (stopped s) && match hbusy s with Some _ => true | None => false end);
+      intros H; [left; inversion H; auto | right; exact H]. }
+  destruct e as [tx oc | tx | | | | oc | | | | tx | oc];
+    try (destruct (Hguard Hstep) as [H|H]; [left; exact H | right; left; exact H]).
+  - unfold step in Hstep. destruct (hbusy s) as [b|] eqn:Eb; [|right; left; exact Hstep].
+    destruct (stopped s) eqn:Est.
+    + right. left. simpl. rewrite Est. exact Hstep.
+    + right. right. right. right. exists b. inversion Hstep; subst. repeat split; auto.
+  - simpl in Hstep. destruct (stopped s) eqn:Est.
+    + right. right. left. exists tx. split; [reflexivity|]. left. inversion Hstep; auto.
+    + destruct (hbusy s) eqn:Eb; inversion Hstep; subst; [left; auto|].
+      right. right. left. exists tx. split; [reflexivity|]. right. auto.
+  - simpl in Hstep. destruct (hbusy s) as [b|] eqn:Eb; [|left; inversion Hstep; auto].
+    right. right. right. left. exists oc, b. split; [reflexivity|]. split; [reflexivity|].
+    destruct (stopped s) eqn:Est; [left; inversion Hstep; auto|].
+    destruct (accepted oc) eqn:Ea; inversion Hstep; subst; right; [left | right]; auto.
+Qed.
+
+Lemma step_pending : forall s e s' o, step depsort s e = (s', o) -> forall tx,
+  In tx (pending s') <->
+  accepts (e, o) tx = true \/ (In tx (pending s) /\ confirms (e, o) tx = false).
+Proof.
+  intros s e s' o Hstep tx.
+  assert (Hsame : accepts (e, o) tx = false -> confirms (e, o) tx = false -> pending s' = pending s ->
+            (In tx (pending s') <-> accepts (e, o) tx = true \/ (In tx (pending s) /\ confirms (e, o) tx = false))).
+  { intros Ha Hc Hp. rewrite Ha, Hc, Hp. split; [intros H; right; auto | intros [H|[H _]]; [discriminate | exact H]]. }
+  destruct (step_cases _ _ _ _ Hstep) as [[H1 H2] | [H | [(t & He & H) | [(oc & t & He & Hb & H) | (t & He & Hb & Hs & H1 & H2)]]]].
+  - subst. apply Hsame; reflexivity.
+  - apply (step0_pending _ _ _ _ H).
+  - destruct H as [(_ & H1 & H2) | (_ & _ & H1 & H2)]; subst; apply Hsame; reflexivity.
+  - destruct H as [(_ & H1 & H2) | [(_ & _ & H1 & H2) | (_ & _ & H1 & H2)]]; subst;
+      try (apply Hsame; reflexivity).
+    unfold accepts, confirms; simpl. rewrite In_add. rewrite Z.eqb_eq. split.
+    + intros [H|H]; [left; auto | right; auto].
+    + intros [H|[H _]]; [left; auto | right; exact H].
+  - subst. apply Hsame; try reflexivity. simpl. rewrite Hs. reflexivity.
 Qed.
 
 Lemma pending_exact : forall evs tx,
@@ -508,7 +648,7 @@ Definition is_trigger (e : ev) : Prop := e = EBlock \/ e = ETick.
 Ltac kp := repeat split; auto; try congruence;
   try (match goal with E : wk _ = _ |- _ => rewrite E; simpl; auto end).
 
-Lemma step_running : forall s e s' o, step depsort s e = (s', o) -> wk s' <> WIdle ->
+Lemma step0_running : forall s e s' o, step0 depsort s e = (s', o) -> wk s' <> WIdle ->
   (wk s = WIdle /\ stopped s = false /\ is_trigger e /\ snap s' = pending s /\
    nsort s' = S (nsort s) /\ sent s' = [] /\
    todo_of (wk s') = match pending s with [] => [] | z :: l0 => depsort (nsort s) (z :: l0) end)
@@ -517,7 +657,7 @@ Lemma step_running : forall s e s' o, step depsort s e = (s', o) -> wk s' <> WId
    (good (snap s) (sent s) (todo_of (wk s)) -> good (snap s') (sent s') (todo_of (wk s')))).
 Proof.
   intros s e s' o Hstep Hrun.
-  destruct e as [t oc | t | | | | oc | | | ]; simpl in Hstep; unfold trigger in Hstep.
+  destruct e as [t oc | t | | | | oc | | | | t | oc]; simpl in Hstep; unfold trigger in Hstep.
   - destruct (stopped s); [|destruct (accepted oc)]; inversion Hstep; subst; simpl in *;
       right; repeat split; auto.
   - destruct (stopped s); inversion Hstep; subst; simpl in *; right; repeat split; auto.
@@ -551,6 +691,26 @@ Proof.
       destruct (stopped s); inversion Hstep; subst; simpl in *;
       try (exfalso; apply Hrun; reflexivity); kp.
   - right. destruct (stopped s); inversion Hstep; subst; simpl in *; repeat split; auto.
+  - inversion Hstep; subst; right; repeat split; auto.
+  - inversion Hstep; subst; right; repeat split; auto.
+Qed.
+
+Lemma step_running : forall s e s' o, step depsort s e = (s', o) -> wk s' <> WIdle ->
+  (wk s = WIdle /\ stopped s = false /\ is_trigger e /\ snap s' = pending s /\
+   nsort s' = S (nsort s) /\ sent s' = [] /\
+   todo_of (wk s') = match pending s with [] => [] | z :: l0 => depsort (nsort s) (z :: l0) end)
+  \/
+  (wk s <> WIdle /\ snap s' = snap s /\ nsort s' = nsort s /\
+   (good (snap s) (sent s) (todo_of (wk s)) -> good (snap s') (sent s') (todo_of (wk s')))).
+Proof.
+  intros s e s' o Hstep Hrun.
+  destruct (step_cases _ _ _ _ Hstep) as [[H1 H2] | [H | [(t & He & H) | [(oc & t & He & Hb & H) | (t & He & Hb & Hs & H1 & H2)]]]].
+  - subst. right. repeat split; auto.
+  - apply (step0_running _ _ _ _ H Hrun).
+  - right. destruct H as [(_ & H1 & H2) | (_ & _ & H1 & H2)]; subst; simpl in *; repeat split; auto.
+  - right. destruct H as [(_ & H1 & H2) | [(_ & _ & H1 & H2) | (_ & _ & H1 & H2)]]; subst; simpl in *;
+      repeat split; auto.
+  - right. subst. simpl in *. rewrite Hs in *. simpl in *. repeat split; auto.
 Qed.
 
 Lemma running_exact : forall evs, wk (run depsort evs) <> WIdle ->
@@ -577,12 +737,12 @@ Proof.
 Qed.
 
 (* a worker call carries the next element of the plan *)
-Lemma sent_grows : forall s e s' tx, step depsort s e = (s', OSent tx) ->
+Lemma sent_grows0 : forall s e s' tx, step0 depsort s e = (s', OSent tx) ->
   e = EWCall /\ stopped s = false /\ sent s' = sent s ++ [tx] /\
   exists rest, wk s = WRun (tx :: rest) /\ wk s' = WCall tx rest.
 Proof.
   intros s e s' tx Hstep.
-  destruct e as [t oc | t | | | | oc | | | ]; simpl in Hstep; unfold trigger in Hstep.
+  destruct e as [t oc | t | | | | oc | | | | t | oc]; simpl in Hstep; unfold trigger in Hstep.
   - destruct (stopped s); [|destruct (accepted oc)]; inversion Hstep.
   - destruct (stopped s); inversion Hstep.
   - destruct (stopped s); [|destruct (wk s)]; inversion Hstep.
@@ -595,18 +755,20 @@ Proof.
   - destruct (wk s) as [|[|t rest]|t rest|t rest]; try (inversion Hstep; fail);
       destruct (stopped s); inversion Hstep.
   - destruct (stopped s); inversion Hstep.
+  - inversion Hstep.
+  - inversion Hstep.
 Qed.
 
 (* no overlap: a trigger while a rebroadcast runs changes nothing *)
-Lemma trigger_skips : forall s e, is_trigger e -> wk s <> WIdle ->
-  fst (step depsort s e) = s.
+Lemma trigger_skips0 : forall s e, is_trigger e -> wk s <> WIdle ->
+  fst (step0 depsort s e) = s.
 Proof.
   intros s e [->| ->] H; simpl; unfold trigger; destruct (stopped s); try reflexivity;
     destruct (wk s); try reflexivity; exfalso; apply H; reflexivity.
 Qed.
 
-Lemma trigger_starts : forall s e, is_trigger e -> wk s = WIdle -> stopped s = false ->
-  let s' := fst (step depsort s e) in
+Lemma trigger_starts0 : forall s e, is_trigger e -> wk s = WIdle -> stopped s = false ->
+  let s' := fst (step0 depsort s e) in
   snap s' = pending s /\ sent s' = [] /\ pending s' = pending s /\
   wk s' = WRun (match pending s with [] => [] | z :: l0 => depsort (nsort s) (z :: l0) end).
 Proof.
@@ -615,12 +777,12 @@ Qed.
 
 (* ---------- callers are never blocked; Stop drains ---------- *)
 
-Lemma callers_return : forall s tx o,
-  snd (step depsort s (EConf tx)) = (if stopped s then OConfQuit else OConfd tx) /\
-  (exists r, snd (step depsort s (EBroadcast tx o)) = ORet tx r /\
+Lemma callers_return0 : forall s tx o,
+  snd (step0 depsort s (EConf tx)) = (if stopped s then OConfQuit else OConfd tx) /\
+  (exists r, snd (step0 depsort s (EBroadcast tx o)) = ORet tx r /\
              (stopped s = true -> r = RStopped) /\
              (stopped s = false -> r = if accepted o then RNil else RErr o)) /\
-  snd (step depsort s EStop) = OStop.
+  snd (step0 depsort s EStop) = OStop.
 Proof.
   intros s tx o. simpl. destruct (stopped s); simpl.
   - repeat split. exists RStopped. repeat split. intros H; discriminate.
@@ -633,13 +795,13 @@ Definition wmeasure (s : st) : nat :=
   match wk s with WIdle => 0 | WRun _ | WHand _ _ => 1 | WCall _ _ => 2 end.
 
 (* after Stop nothing revives or prolongs the worker ... *)
-Lemma stopped_monotone : forall s e, stopped s = true ->
-  stopped (fst (step depsort s e)) = true /\
-  (wmeasure (fst (step depsort s e)) <= wmeasure s)%nat.
+Lemma stopped_monotone0 : forall s e, stopped s = true ->
+  stopped (fst (step0 depsort s e)) = true /\
+  (wmeasure (fst (step0 depsort s e)) <= wmeasure s)%nat.
 Proof.
   intros s e Hs. unfold wmeasure.
   destruct (wk s) as [|[|t rest]|t rest|t rest] eqn:Ew;
-    destruct e as [t' oc | t' | | | | oc | | | ]; simpl; unfold trigger;
+    destruct e as [t' oc | t' | | | | oc | | | | t' | oc]; simpl; unfold trigger;
     rewrite ?Hs, ?Ew; simpl; rewrite ?Hs, ?Ew; simpl;
     try (destruct (is_confirmed oc); simpl; rewrite ?Hs, ?Ew; simpl);
     split; auto; lia.
@@ -648,8 +810,8 @@ Qed.
 (* ... and the worker's own next transition strictly shortens what Stop's
    wg.Wait() is waiting for: at most two transitions (the return of the call
    in flight, then the exit) *)
-Lemma stop_drains : forall s o, stopped s = true -> wk s <> WIdle ->
-  (wmeasure (fst (step depsort s (wnext s o))) < wmeasure s)%nat.
+Lemma stop_drains0 : forall s o, stopped s = true -> wk s <> WIdle ->
+  (wmeasure (fst (step0 depsort s (wnext s o))) < wmeasure s)%nat.
 Proof.
   intros s o Hs Hw. unfold wmeasure, wnext.
   destruct (wk s) as [|[|t rest]|t rest|t rest] eqn:Ew; simpl; try rewrite Ew; try rewrite Hs; simpl; try lia.
@@ -657,9 +819,9 @@ Proof.
   - destruct (is_confirmed o); simpl; lia.
 Qed.
 
-Lemma stop_completes : forall s o1 o2, stopped s = true ->
-  let s1 := fst (step depsort s (wnext s o1)) in
-  let s2 := fst (step depsort s1 (wnext s1 o2)) in
+Lemma stop_completes0 : forall s o1 o2, stopped s = true ->
+  let s1 := fst (step0 depsort s (wnext s o1)) in
+  let s2 := fst (step0 depsort s1 (wnext s1 o2)) in
   wk s2 = WIdle.
 Proof.
   intros s o1 o2 Hs. unfold wnext.
@@ -667,6 +829,147 @@ Proof.
     repeat (progress (rewrite ?Ew, ?Hs; simpl)); try reflexivity.
   destruct (is_confirmed o1); simpl; repeat (progress (rewrite ?Hs; simpl)); try reflexivity.
   destruct rest; simpl; repeat (progress (rewrite ?Hs; simpl)); reflexivity.
+Qed.
+
+(* ---------- the same facts for the full step ---------- *)
+
+Lemma sent_grows : forall s e s' tx, step depsort s e = (s', OSent tx) ->
+  e = EWCall /\ stopped s = false /\ sent s' = sent s ++ [tx] /\
+  exists rest, wk s = WRun (tx :: rest) /\ wk s' = WCall tx rest.
+Proof.
+  intros s e s' tx Hstep.
+  destruct (step_cases _ _ _ _ Hstep) as [[H1 H2] | [H | [(t & He & H) | [(oc & t & He & Hb & H) | (t & He & Hb & Hs & H1 & H2)]]]].
+  - discriminate.
+  - apply (sent_grows0 _ _ _ _ H).
+  - destruct H as [(_ & _ & H2) | (_ & _ & _ & H2)]; discriminate.
+  - destruct H as [(_ & _ & H2) | [(_ & _ & _ & H2) | (_ & _ & _ & H2)]]; discriminate.
+  - discriminate.
+Qed.
+
+Lemma trigger_skips : forall s e, is_trigger e -> wk s <> WIdle ->
+  fst (step depsort s e) = s.
+Proof.
+  intros s e He Hw. pose proof (trigger_skips0 s e He Hw) as H0.
+  destruct He as [->| ->]; simpl in *;
+    destruct (negb (stopped s) && match hbusy s with Some _ => true | None => false end);
+    simpl; auto.
+Qed.
+
+Lemma trigger_starts : forall s e, is_trigger e -> wk s = WIdle -> stopped s = false ->
+  hbusy s = None ->
+  let s' := fst (step depsort s e) in
+  snap s' = pending s /\ sent s' = [] /\ pending s' = pending s /\
+  wk s' = WRun (match pending s with [] => [] | z :: l0 => depsort (nsort s) (z :: l0) end).
+Proof.
+  intros s e He Hw Hs Hb. pose proof (trigger_starts0 s e He Hw Hs) as H0.
+  destruct He as [->| ->]; simpl in *; rewrite Hs, Hb in *; simpl in *; exact H0.
+Qed.
+
+Lemma step_eq0_stopped : forall s e, stopped s = true ->
+  (forall t, e <> EBcStart t) -> (forall o, e <> EBcRet o) ->
+  step depsort s e = step0 depsort s e.
+Proof.
+  intros s e Hs H1 H2.
+  destruct e as [tx oc | tx | | | | oc | | | | tx | oc]; simpl; rewrite ?Hs; simpl; try reflexivity.
+  - destruct (hbusy s); reflexivity.
+  - exfalso. apply (H1 tx). reflexivity.
+  - exfalso. apply (H2 oc). reflexivity.
+Qed.
+
+(* callers: after Stop everything returns through quit; before Stop an idle
+   handler serves them; a caller whose request is being served is released
+   by Stop, or answered when the call returns; and the handler's reply is
+   always enabled (buffered errChan), caller present or not *)
+Lemma callers_return : forall s tx o,
+  (stopped s = true ->
+     snd (step depsort s (EConf tx)) = OConfQuit /\
+     snd (step depsort s (EBroadcast tx o)) = ORet tx RStopped /\
+     snd (step depsort s (EBcStart tx)) = ORet tx RStopped /\
+     snd (step depsort s EStop) = OStop) /\
+  (stopped s = false -> hbusy s = None ->
+     snd (step depsort s (EConf tx)) = OConfd tx /\
+     snd (step depsort s (EBroadcast tx o)) = ORet tx (if accepted o then RNil else RErr o) /\
+     snd (step depsort s (EBcStart tx)) = OBcHeld tx /\
+     snd (step depsort s EStop) = OStop) /\
+  (forall b, hbusy s = Some b ->
+     (stopped s = false ->
+        snd (step depsort s EStop) = OStopBc b /\
+        snd (step depsort s (EBcRet o)) = ORet b (if accepted o then RNil else RErr o)) /\
+     (stopped s = true -> snd (step depsort s (EBcRet o)) = OAnsH) /\
+     hbusy (fst (step depsort s (EBcRet o))) = None).
+Proof.
+  intros s tx o. split; [|split].
+  - intros Hs. simpl. rewrite Hs. simpl. repeat split. destruct (hbusy s); reflexivity.
+  - intros Hs Hb. simpl. rewrite Hs, Hb. simpl. repeat split. destruct (accepted o); reflexivity.
+  - intros b Hb. simpl. rewrite Hb. split; [|split].
+    + intros Hs. rewrite Hs. split; [reflexivity|]. destruct (accepted o); reflexivity.
+    + intros Hs. rewrite Hs. reflexivity.
+    + destruct (stopped s); [reflexivity|]. destruct (accepted o); reflexivity.
+Qed.
+
+(* what Stop's wg.Wait() still waits for: the worker and the handler *)
+Definition tmeasure (s : st) : nat :=
+  (wmeasure s + match hbusy s with Some _ => 1 | None => 0 end)%nat.
+
+Lemma stopped_monotone : forall s e, stopped s = true ->
+  stopped (fst (step depsort s e)) = true /\
+  (tmeasure (fst (step depsort s e)) <= tmeasure s)%nat.
+Proof.
+  intros s e Hs.
+  assert (H0 : (forall t, e <> EBcStart t) -> (forall o, e <> EBcRet o) ->
+     stopped (fst (step depsort s e)) = true /\
+     (tmeasure (fst (step depsort s e)) <= tmeasure s)%nat).
+  { intros H1 H2. rewrite (step_eq0_stopped _ _ Hs H1 H2).
+    destruct (stopped_monotone0 s e Hs) as [G1 G2]. split; [exact G1|].
+    unfold tmeasure. destruct (step0 depsort s e) as [s' o] eqn:E. simpl in *.
+    rewrite (step0_busy _ _ _ _ E). lia. }
+  destruct e as [tx oc | tx | | | | oc | | | | tx | oc]; try (apply H0; intros; discriminate).
+  - simpl. rewrite Hs. simpl. split; [exact Hs | lia].
+  - simpl. unfold tmeasure, wmeasure. destruct (hbusy s) eqn:Eb; simpl; rewrite ?Hs, ?Eb; simpl.
+    + split; [first [reflexivity | exact Hs] | try rewrite Eb; lia].
+    + split; [first [reflexivity | exact Hs] | try rewrite Eb; lia].
+Qed.
+
+Lemma stop_drains : forall s o, stopped s = true -> wk s <> WIdle ->
+  (tmeasure (fst (step depsort s (wnext s o))) < tmeasure s)%nat.
+Proof.
+  intros s o Hs Hw.
+  assert (Hn : step depsort s (wnext s o) = step0 depsort s (wnext s o)).
+  { apply step_eq0_stopped; [exact Hs | |]; intros t; unfold wnext; destruct (wk s) as [|[|]| |]; discriminate. }
+  rewrite Hn. pose proof (stop_drains0 s o Hs Hw) as H. unfold tmeasure.
+  destruct (step0 depsort s (wnext s o)) as [s' ob] eqn:E. simpl in *.
+  rewrite (step0_busy _ _ _ _ E). lia.
+Qed.
+
+Lemma handler_drains : forall s o b, hbusy s = Some b ->
+  let s' := fst (step depsort s (hnext o)) in
+  hbusy s' = None /\ wk s' = wk s /\ stopped s' = stopped s.
+Proof.
+  intros s o b Hb. simpl. rewrite Hb.
+  destruct (stopped s) eqn:Es; [|destruct (accepted o)]; simpl; repeat split; auto.
+Qed.
+
+Lemma stop_completes : forall s o0 o1 o2, stopped s = true ->
+  let s0 := fst (step depsort s (hnext o0)) in
+  let s1 := fst (step depsort s0 (wnext s0 o1)) in
+  let s2 := fst (step depsort s1 (wnext s1 o2)) in
+  wk s2 = WIdle /\ hbusy s2 = None.
+Proof.
+  intros s o0 o1 o2 Hs.
+  set (s0 := fst (step depsort s (hnext o0))).
+  assert (H0 : stopped s0 = true /\ hbusy s0 = None).
+  { unfold s0. simpl. destruct (hbusy s) eqn:Eb; simpl; rewrite ?Hs; simpl; auto. }
+  destruct H0 as [Hs0 Hb0]. simpl.
+  assert (Hw : forall s o, stopped s = true -> step depsort s (wnext s o) = step0 depsort s (wnext s o)).
+  { intros x o Hx. apply step_eq0_stopped; [exact Hx | |]; intros t; unfold wnext;
+      destruct (wk x) as [|[|]| |]; discriminate. }
+  rewrite (Hw s0 o1 Hs0).
+  destruct (stopped_monotone0 s0 (wnext s0 o1) Hs0) as [Hs1 _].
+  rewrite (Hw _ o2 Hs1). split.
+  - apply (stop_completes0 s0 o1 o2 Hs0).
+  - destruct (step0 depsort s0 (wnext s0 o1)) as [s1 ob1] eqn:E1. simpl in *.
+    destruct (step0 depsort s1 (wnext s1 o2)) as [s2 ob2] eqn:E2. simpl.
+    rewrite (step0_busy _ _ _ _ E2), (step0_busy _ _ _ _ E1). exact Hb0.
 Qed.
 
 End BroadcasterProofs.
